@@ -451,6 +451,30 @@ func genThresholdPair(r *Rng, key uint64) (ma, mb *ISet, op string, target int) 
 		if target == 65535 {
 			R.Remove(edgeVal16(r))
 		}
+	} else if target <= 4097 && r.Chance(0.2) {
+		// k short runs (length 2..4, the shortest that still make a run chunk run-efficient) with isolated values in
+		// the gaps between them: exactly the target, in 2048 or more runs when the pieces are united
+		R = NewISet()
+		k := 500 + r.Intn(800)
+		pos := r.Range(0, 30)
+		var gaps []uint64
+		for i := 0; i < k && R.Card()+4 < uint64(target); i++ {
+			l := r.Range(2, 4)
+			R.AddRange(pos, pos+l-1)
+			gaps = append(gaps, pos+l+1) // first usable position of the gap behind this run
+			pos += l + 2 + 2*r.Range(1, 5)
+		}
+		for i := 0; R.Card() < uint64(target) && i < 4*len(gaps)+8; i++ {
+			if i < len(gaps) {
+				R.Add(gaps[i])
+			} else {
+				pos += 2
+				R.Add(pos)
+			}
+		}
+		if mx, _ := R.Max(); mx > 65535 || R.Card() != uint64(target) {
+			R = ivsToSet(spreadN(r, target))
+		}
 	} else if r.Chance(0.33) {
 		R = ivsToSet(spreadN(r, target))
 	} else if r.Chance(0.5) {
